@@ -34,6 +34,7 @@ structure VSt where
   sRunning : List (Nat × Nat) := []         -- (group, cb) running now
   sQueue : List (Nat × List Nat) := []      -- group ↦ accepted, not yet started (enqueue order)
   sStarted : List Nat := []
+  sDroppable : List Nat := []               -- query requests: dropped without reaching user code when they arrive after the expiry
   sShutdownBegun : Bool := false
   sStopped : Bool := false
   forcedWakes : Nat := 0
@@ -143,8 +144,13 @@ def specNote (v : VSt) (goid : Nat) (point : String) (wid : Nat) (n : Nat) : VSt
       let g := (aget v.widOfCb cb).getD wid
       ({ v with sQueue := aset v.sQueue g ((aget v.sQueue g).getD [] ++ [cb]) }, "?ok")
     | none => (v, "?ok")
+  | "s.qrequest" => ({ v with sDroppable := n :: v.sDroppable }, "?ok")
   | "h.cbstart" =>
     let g := (aget v.widOfCb n).getD 0
+    -- late query requests ahead of this callback never reach user code: skip them
+    let v := if g ≠ 0 then
+        { v with sQueue := aset v.sQueue g (((aget v.sQueue g).getD []).dropWhile (fun h => h ≠ n ∧ v.sDroppable.contains h)) }
+      else v
     if v.sStopped then (v, s!"?viol:callback-{n}-started-after-shutdown-returned")
     else if v.sStarted.contains n then (v, s!"?viol:callback-{n}-started-twice")
     else if g ≠ 0 ∧ v.sRunning.any (·.1 = g) then (v, s!"?viol:two-callbacks-of-group-{g}-running")
@@ -172,7 +178,7 @@ def specNote (v : VSt) (goid : Nat) (point : String) (wid : Nat) (n : Nat) : VSt
   | "h.quiescent" =>
     -- the harness has waited for everything it submitted: nothing may be left behind
     if v.sShutdownBegun then (v, "?ok")
-    else match v.sQueue.find? (fun e => !e.2.isEmpty) with
+    else match (v.sQueue.map (fun e => (e.1, e.2.filter (fun c => !v.sDroppable.contains c)))).find? (fun e => !e.2.isEmpty) with
       | some (g, q) => (v, s!"?viol:group-{g}-callbacks-{q}-accepted-but-never-started")
       | none => (v, "?ok")
   | _ => (v, "?ok")
